@@ -920,8 +920,8 @@ def oracle_pool(env, c, r, paths, prev=None):
     exp = given or envp or r["default_parent"]
     if r["pool_temp_parent"] != exp and c["backend"] == "loky" and prev is not None and prev[0] == r.get("executor_id") \
             and r["pool_temp_parent"] == prev[1]:
-        return ("KNOWN:the loky executor of an earlier call is reused and keeps ITS temp folder %r; the temp_folder resolved for this "
-                "call (%r) is ignored" % (prev[1], exp))
+        return ("the loky executor of an earlier call was reused and kept ITS temp folder %r; the temp_folder resolved for this call "
+                "(%r) is ignored" % (prev[1], exp))
     if r["pool_temp_parent"] != exp:
         return ("the %s pool really uses temp folder %r, expected %r (explicit %r > context %r > JOBLIB_TEMP_FOLDER %r > default)" % (
             c["backend"], r["pool_temp_parent"], exp, c["args"].get("temp_folder"), (c.get("enclosing") or {}).get("temp_folder"), envp))
@@ -955,8 +955,10 @@ def search_life(ctx):
             bad = oracle_pool(env, c, r, paths, prev)
             if c["mode"] == "pool" and c["backend"] == "loky" and "executor_id" in r:
                 prev = (r["executor_id"], r["pool_temp_parent"])
-            if bad and not bad.startswith("KNOWN:"):
-                return bad, dict(c, env=env)
+            if bad:
+                return bad, ({"mode": "pool-sequence", "env": env, "sequence": [x for x in cs[:cs.index(c) + 1]
+                                                                                 if x["mode"] == "pool" and x["backend"] == "loky"]}
+                             if c["mode"] == "pool" and c["backend"] == "loky" else dict(c, env=env))
     return None
 
 
@@ -1152,10 +1154,14 @@ def run(ctx):
     for env, cs in pstream.items():
         envp = env[3:] if env.startswith("tf:") else None
         prev = None
+        loky_hist = []
         for c, r in zip(cs, pres[env]):
             bad = oracle_pool(env, c, r, paths, prev)
-            if bad and bad.startswith("KNOWN:"):
-                findings.setdefault(K_F47, (bad[6:], {"pool_case": dict(c, env=env)}))
+            if c["mode"] == "pool" and c["backend"] == "loky":
+                loky_hist.append(c)
+            if bad and c["mode"] == "pool" and c["backend"] == "loky" and prev is not None:
+                # the earlier loky calls of the same process are part of the failing input
+                life_problems.append((bad, {"mode": "pool-sequence", "env": env, "sequence": list(loky_hist)}, r))
             elif bad:
                 life_problems.append((bad, dict(c, env=env), r))
             if "harness_error" in r:
@@ -1228,23 +1234,8 @@ def run(ctx):
             ctx.violation("witness of a _refuted theorem no longer fails on the implementation (%s): the model is stale" % key,
                           {"kind": "stale-model", "case": wit, "key": key}, found_input=False)
     for key, (bad, detail) in findings.items():
-        if detail is not None and "pool_case" in detail:
-            ctx.violation(bad, {"kind": "known-finding", "case": detail["pool_case"], "witness": F47_WITNESS}, True, finding_key=key)
-            continue
         ctx.violation(bad, {"kind": "known-finding", "case": LIFE_WITNESS if detail is None else minimal_replay(detail)}, True,
                       finding_key=key)
-    # F47 witness (C17_loky_temp_folder_reuse_refuted) must still fail on the implementation, in a fresh interpreter
-    wcs = [dict(cw, args=dict(cw["args"], **({"temp_folder": os.path.join(ctx.tmp, "tf", "arg")} if cw["args"] else {}))) for cw in F47_WITNESS]
-    wres = run_life_stream({"tf-unset": wcs})["tf-unset"]
-    wprev = (wres[0].get("executor_id"), wres[0].get("pool_temp_parent"))
-    wbad = oracle_pool("tf-unset", wcs[1], wres[1], None, wprev)
-    if wbad and wbad.startswith("KNOWN:"):
-        ctx.violation(wbad[6:], {"kind": "known-finding", "case": F47_WITNESS}, True, finding_key=K_F47)
-    elif wbad:
-        ctx.violation(wbad, {"kind": "oracle", "case": F47_WITNESS}, True)
-    else:
-        ctx.violation("witness of C17_loky_temp_folder_reuse_refuted no longer fails on the implementation: the model is stale",
-                      {"kind": "stale-model", "case": F47_WITNESS, "key": K_F47}, found_input=False)
     if not translator_ok and not disagreements and not problems and proofs_ok:
         ctx.note("translator tie lost, hand-model tie intact")
     ctx.finish({
@@ -1281,6 +1272,15 @@ def replay(ctx, path):
     obj = json.load(open(path))
     rep = obj.get("replay", obj)
     c = rep.get("case") or rep.get("input")
+    if c and c.get("mode") == "pool-sequence":
+        env = c.get("env")
+        rs = run_life_stream({env: c["sequence"]})[env]
+        prev, bad = None, None
+        for cc, rr in zip(c["sequence"], rs):
+            bad = oracle_pool(env, cc, rr, None, prev)
+            prev = (rr.get("executor_id"), rr.get("pool_temp_parent"))
+        print("replay:", json.dumps(c)[:400], "=>", bad or "property holds")
+        return 1 if bad else 0
     if c and c.get("mode") in ("pool", "tempdir"):
         env = c.get("env")
         r = run_life_stream({env: [c]})[env][0]
